@@ -367,7 +367,8 @@ func (d *decoder) payload(tt byte) (*Tag, error) {
 		if err != nil {
 			return nil, err
 		}
-		if et > LongArray {
+		if et > LongArray && n > 0 {
+			// (an empty list never looks its element type up; vanilla accepts any byte there)
 			return nil, fmt.Errorf("ref/nbt: invalid list element tag id %#02x", et)
 		}
 		if et == End && n > 0 {
